@@ -21,7 +21,9 @@ pub unsafe fn sbb_stub(borrow: u8, lhs: u64, rhs: u64, out: &mut u64) -> u8 {
 }
 /// Message text is irrelevant to every claim that uses this stub.
 pub fn fmt_stub(_args: std::fmt::Arguments<'_>) -> String {
-    String::new()
+    // not String::new(): a const-evaluated empty Vec returned from a stub body reads back
+    // with capacity 1 in Kani 0.68 (spurious dealloc failure); a run-time allocation does not
+    String::from("?")
 }
 /// getrandom is not available to Kani: hash keys fixed to (0,0) - hash order is not explored.
 pub fn rs_stub() -> std::hash::RandomState {
